@@ -73,7 +73,7 @@ def sv_bool(t):
 
 
 class Obligation:
-    __slots__ = ("name", "kind", "pc", "goal", "where", "status", "backend", "time", "model", "path_id", "info")
+    __slots__ = ("name", "kind", "pc", "goal", "where", "status", "backend", "time", "model", "path_id", "info", "nfacts")
 
     def __init__(self, name, kind, pc, goal, where="", info=None):
         self.name = name
@@ -87,6 +87,7 @@ class Obligation:
         self.model = None
         self.path_id = None
         self.info = info or {}
+        self.nfacts = 0
 
 
 class State:
@@ -98,6 +99,8 @@ class State:
         self.taken: list = []
         self.alternatives: list = []
         self.pc: list = []
+        self.facts: list = []        # every assumed fact, in order
+        self.fact_ids: set = set()
         self.qpc: list = []          # quantified facts (kept out of the feasibility solver)
         self.heap: dict = {}
         self.heap0: dict = {}        # arrays at function entry (for old())
@@ -125,6 +128,11 @@ class State:
             return
         if z3.is_true(cond):
             return
+        self.facts.append(cond)
+        self.fact_ids.add(cond.get_id())
+        if z3.is_and(cond):
+            for ch in cond.children():
+                self.fact_ids.add(ch.get_id())
         if quantified:
             self.qpc.append(cond)
         else:
@@ -132,7 +140,7 @@ class State:
             self.feas.add(cond)
 
     def full_pc(self):
-        return tuple(self.pc) + tuple(self.qpc)
+        return tuple(self.facts)
 
     def feasible(self, cond=None):
         if cond is None:
@@ -186,8 +194,17 @@ class State:
 
     # -- obligations
     def oblige(self, name, goal, kind="assert", where="", info=None, assume_after=True):
-        g = z3.simplify(goal) if not isinstance(goal, bool) else z3.BoolVal(goal)
-        ob = Obligation(name, kind, self.full_pc(), g, where, info)
+        g0 = goal if not isinstance(goal, bool) else z3.BoolVal(goal)
+        if g0.get_id() in self.fact_ids:
+            g = z3.BoolVal(True)      # literally one of the assumed facts
+        else:
+            g = z3.simplify(g0)
+            if g.get_id() in self.fact_ids:
+                g = z3.BoolVal(True)
+            elif z3.is_and(g0) and all(ch.get_id() in self.fact_ids for ch in g0.children()):
+                g = z3.BoolVal(True)
+        ob = Obligation(name, kind, None, g, where, info)
+        ob.nfacts = len(self.facts)
         ob.info.setdefault("trace", list(self.trace[-12:]))
         self.obligations.append(ob)
         if assume_after and not z3.is_true(g):
